@@ -179,7 +179,8 @@ Definition body_concrete (k : spair_kind) (v : visit) (s : St) : res St :=
       | _, _ => setzero c s                        (* case s_a == nil || s_b == nil *)
       end
   | SMulS b => match va v with None => setzero c s | Some a => MUL F r32 c a b s end
-  | SDivS b => match va v with None => setzero c s | Some a => DIV F r32 c a b s end
+  (* VDIVS is { r.VdivS(a, b); return r } since 5abb77d: the generic body *)
+  | SDivS b => exec F r32 (IDy ODiv c (arg (va v)) (Rg b)) s
   | SSetV =>
       match vnew v, va v with
       | None, Some a => SET F r32 c a s            (* case s1 != nil && s2 != nil: s1.SET(s2) *)
@@ -201,7 +202,8 @@ Definition vs_concrete (k : spair_kind) : list visit -> St -> res St := visits (
 Definition visit_present (k : spair_kind) (v : visit) : Prop :=
   match k with
   | SAddV | SSubV | SMulV => va v <> None /\ vb v <> None
-  | SMulS _ | SDivS _ | SSetV => va v <> None
+  | SMulS _ | SSetV => va v <> None
+  | SDivS _ => True                               (* VDIVS calls VdivS *)
   end.
 
 End ModelVR.
